@@ -41,9 +41,16 @@ def tagged(v, depth=0):
     if isinstance(v, (list, LazyList)):
         if depth > 8:
             raise runner.TooBig()
-        items = list(v) if isinstance(v, list) else v.listify()
-        if len(items) > 400:
-            raise runner.TooBig()
+        if isinstance(v, list):
+            items = v
+            if len(items) > 400:
+                raise runner.TooBig()
+        else:
+            items = []
+            for x in v:          # never listify(): the list may be infinite
+                items.append(x)
+                if len(items) > 400:
+                    raise runner.TooBig()
         return {"l": [tagged(x, depth + 1) for x in items]}
     if isinstance(v, types.FunctionType):
         return {"f": 1}
